@@ -103,6 +103,20 @@ def r1(ctx, rep):
         conds = [Ad.show(n["c"]) for n in walk(dp["body"]) if n.get("k") == "if"]
         if not any("RESERVED_WORDS.contains(" in c_ for c_ in conds):
             disp_words = set()
+        # .. whatever the other circumstances are (position in a dotted name, ..): with the reserved-word test true, the branch that writes
+        # backticks is taken for every value of the remaining atoms of the condition
+        import boolfn as _bfd
+        for n in walk(dp["body"]):
+            if n.get("k") == "if" and n.get("e") is not None and "RESERVED_WORDS.contains(" in Ad.show(n["c"]):
+                try:
+                    table = _bfd.rows(n["c"], Ad, lambda t: True if "RESERVED_WORDS.contains(" in t and not t.startswith("!") else None)
+                    for env, val in table:
+                        taken = n["t"] if val else n["e"]
+                        if "`" not in show_stmts(taken, maxdepth=8):
+                            disp_words = set()
+                            rep.note(f"display_ident_part prints a reserved word bare when {env}")
+                except _bfd.Unknown:
+                    pass
     wi = syn.fn("codegen::ast::write_ident_part", crate="prqlc")
     cond_ok = False
     import alpha as _al0
